@@ -537,7 +537,8 @@ def check(prop, tier, seed, replay):
         # ---- verdict, part B
         if B:
             for sig in sorted(B["rejected"]):
-                items = sorted(B["rejected"][sig], key=lambda x: (len(B["traces"][x[0]]), x[0]))
+                # shown first: a log the property rejected for this very signature, the shortest one
+                items = sorted(B["rejected"][sig], key=lambda x: (B["first_sig"].get(x[0]) != sig, len(B["traces"][x[0]]), x[0]))
                 i0, f0 = items[0]
                 desc = timeline(B["traces"][i0], mark=f0["line_in_trace"])
                 rej_summary[sig] = dict(part="B", logs=len(items), shortest=desc.split("\n")[0].strip(),
